@@ -371,6 +371,8 @@ fn judge_output(
                     }
                 }
             }
+            // not associative: never generated for a sorter
+            MergeKind::BorrowedPrefix => {}
             MergeKind::Join => {
                 let want = mvals.join(&0x1Fu8);
                 if !unstable {
@@ -563,9 +565,23 @@ pub fn gen_c08_with(rng: &mut Rng, tier: Tier, real_scale: bool) -> Case {
     if let Some(c) = knobs.init_cap {
         knobs.init_cap = Some(c.min(b));
     }
+    // side stream: one history in twenty has a large chunk limit (64..129) and enough volume under a
+    // small budget to reach it more than once
+    let mut side = rng.clone();
+    let many = side.chance(1, 20);
+    if many {
+        knobs.raw_threshold = Some(*side.pick(&[256usize, 512, 1024]));
+        knobs.max_nb_chunks = Some(*side.pick(&[64usize, 65, 66, 100, 128, 129]));
+        knobs.init_cap = knobs.init_cap.map(|c| c.min(256));
+    }
+    let b = knobs.raw_threshold.unwrap();
     let max_entry = b / 4;
     // total volume 5–200 × budget, bounded for speed
-    let mult = rng.range(5, if tier == Tier::Quick { 60 } else { 200 });
+    let mut mult = rng.range(5, if tier == Tier::Quick { 60 } else { 200 });
+    if many {
+        let m = knobs.max_nb_chunks.unwrap() as u64;
+        mult = side.range(2 * m + 10, 5 * m);
+    }
     let vol_cap = if tier == Tier::Quick { 600_000u64 } else { 4_000_000 };
     let target = (b as u64 * mult).min(vol_cap);
     let mut inserts = Vec::new();
@@ -709,11 +725,21 @@ pub fn check_c08(case: &Case, st: &mut Stats) -> Verdict {
             let storage = e.chunk_bytes_written;
             let net = heap_peak.saturating_sub(live_before);
             st.c.max("max.real_scale_heap_permille_of_2x_budget", net * 1000 / (2 * budget));
-            if net > 2 * budget + (8 << 20) {
+            // merging k chunks keeps one decoded block per chunk plus the output block in memory,
+            // and a block holds at least one entry: that working set is allowed on top
+            let max_entry: u64 = match &c.inserts {
+                Entries::Literal(v) => v.iter().map(|(k, v)| (k.0.len() + v.0.len()) as u64).max().unwrap_or(0),
+                Entries::Counter { width, vlen, .. } | Entries::Noise { width, vlen, .. } => *width as u64 + *vlen as u64,
+            };
+            let merge_set = (max_chunks as u64 + 3) * 2 * max_entry.max(8192);
+            if net > 2 * budget + (8 << 20) + merge_set {
                 return viol(
                     "C08",
                     "heap-peak",
-                    format!("heap high-water mark {} bytes above the start of the run (simulated storage of {} bytes excluded) exceeds 2 x budget {} + 8 MiB", net, storage, budget),
+                    format!(
+                        "heap high-water mark {} bytes above the start of the run (simulated storage of {} bytes excluded) exceeds 2 x budget {} + 8 MiB + a merge working set of {}",
+                        net, storage, budget, merge_set
+                    ),
                 );
             }
         }
